@@ -418,8 +418,9 @@ func cmdCheck(args []string) int {
 		}
 	}
 	for _, oo := range outs {
-		if nundef > 8 {
+		if nundef > 8 || os.Getenv("VERIF_NORETRY") != "" {
 			// a broad failure is not a load glitch: report without retrying
+			// (VERIF_NORETRY: must-fail corpus runs, where failing is the expected outcome)
 			break
 		}
 		if oo.Kind == "cover" || oo.File == "" || oo.Status == "unsat" || oo.Status == "sat" || oo.Status == "toolarge" || oo.Status == "" {
